@@ -684,7 +684,14 @@ func (fr *Frame) sliceOp(x *ssa.Slice, st *State, g *Term) *Term {
 		c.heapSet(st, en, c.sto(c.heapGet(st, en), r, av))
 		c.warn("slice of array %s at %s: aliasing with the array is not modelled (copy semantics)", x.Name(), c.posOf(x.Pos()))
 		ng := fr.mayPanicIfNew(g, mk(SBool, fmt.Sprintf("(or (< %s 0) (> %s %s) (> %s %d))", lo.S, lo.S, hi.S, hi.S, arr.Len())), st, "slice", x.Pos(), "slice bounds out of range")
-		fr.vals[x] = tv(c.define(x.Name(), mk(SSlice, fmt.Sprintf("(mk-slice %s %s (- %s %s))", r.S, lo.S, hi.S, lo.S))))
+		asl := c.define(x.Name(), mk(SSlice, fmt.Sprintf("(mk-slice %s %s (- %s %s))", r.S, lo.S, hi.S, lo.S)))
+		fr.vals[x] = tv(asl)
+		// remember which array the slice was cut from: copy(dst[:], src) writes the copied bytes back into the array
+		// (the only way a slice of an array is written in the functions under contract)
+		if fr.arrSlices == nil {
+			fr.arrSlices = map[string]*Loc{}
+		}
+		fr.arrSlices[asl.S] = ploc
 		return ng
 	case *types.Basic: // string
 		c.declareFun("gstr.sub", []Sort{SStr, SInt, SInt}, SStr)
